@@ -132,6 +132,22 @@ def cases(rng):
         out.append(('fn f()\n{\n\tvar m: [%d]i32 = [%s];\n\tvar q: &[%d]i32 = &m;\n}\n' % (la, ', '.join('1' for _ in range(la)), lb),
                     'reject:504', 'address of a [%d]i32 stored in a variable of type &[%d]i32' % (la, lb)))
     out.append(('fn g(p: &[3]i32)\n{\n}\n\nfn f()\n{\n\tvar m: [3]i32 = [1, 1, 1];\n\tg(&m);\n}\n', 'accept', 'address of a [3]i32 passed for &[3]i32'))
+    # bit casts: only between (thin) pointers, or to the identical type; never between an array-view pointer and a pointer
+    pre = 'fn first(x: &u8)\n{\n}\n\nfn many(x: &[]u8)\n{\n}\n\nfn g(y: &[]u8, b: &u8)\n{\n\tvar a: i32 = 10;\n\tvar p: &i32 = &a;\n'
+    for stmt, exp, what in [
+            ('var q: &u32 = cast &p as &u32;', 'accept', 'bit cast of a pointer to another pointer type'),
+            ('var q: &u8 = cast &p as &u8;', 'accept', 'bit cast of a pointer to a pointer to a smaller type'),
+            ('var q: &&i32 = cast &p as &&i32;', 'accept', 'bit cast of a pointer to a pointer to a pointer'),
+            ('var q: i32 = cast a as i32;', 'accept', 'bit cast to the identical type'),
+            ('var q: &u32 = cast p as &u32;', 'reject:553', 'bit cast of an integer (address forgotten) to a pointer'),
+            ('var q: &i32 = cast a as &i32;', 'reject:553', 'bit cast of an integer to a pointer'),
+            ('var q: usize = cast &p as usize;', 'reject:553', 'bit cast of a pointer to usize'),
+            ('var q: u32 = cast a as u32;', 'reject:553', 'bit cast between different integer types'),
+            ('var q: bool = cast a as bool;', 'reject:553', 'bit cast of an integer to bool'),
+            ('first(cast &y as &u8);', 'reject:553', 'bit cast of a pointer to an array view (pointer and length) to a plain pointer'),
+            ('first(cast &y);', 'reject:553', 'bit cast of a pointer to an array view to the plain pointer the parameter asks for'),
+            ('many(cast &b as &[]u8);', 'reject', 'bit cast of a plain pointer to a pointer to an array view')]:
+        out.append((pre + '\t' + stmt + '\n}\n', exp, what))
     rng.shuffle(out)
     return out
 
